@@ -9,7 +9,9 @@ Open Scope Z_scope.
 
 (** outcome of one run *)
 Inductive outcome := ODone (res : list P) | OHang | OPanic
-  | ODoneR (res : list P).   (* completed on a multi-host deployment *)
+  | ODoneR (res : list P)    (* completed on a multi-host deployment *)
+  | OHangB (batch par : Z).  (* did not terminate; the run's batch size (1 for `Single`) and its
+                                total parallelism (replicas of an unlimited block) *)
 
 Record case := {
   c_pipe : pipe;
@@ -31,8 +33,40 @@ Definition prop_ok (c : case) : bool :=
   let expected := canon (denote (c_pipe c)) in
   forallb (run_ok expected) (c_runs c).
 
-(** known finding F9 (class 1): a run of a pipeline containing `iterate` did not terminate
-    (feedback / body deadlock when the body emits more than the channel capacities) *)
+(** known finding F9 (class 1): a run of a pipeline containing `iterate` did not terminate:
+    feedback / body deadlock when the body emits, per element the head pulls, more MESSAGES
+    than the channels of the feedback cycle hold (model: capacity + 1, i.e. 17;
+    C04_iterate_feedback_deadlock_in_model). [iter_expansion] is the largest number of
+    elements an `iterate` body can make of one element (product of its flat_map factors); with
+    batches of [b] elements that is at most ceil(expansion / b) messages. *)
+Definition ops_expansion (os : list op1) : Z :=
+  fold_left (fun acc o => match o with OFlatRep n => acc * Z.max n 1 | _ => acc end) os 1.
+Fixpoint iter_expansion (p : pipe) : Z :=
+  match p with
+  | PSrc _ _ => 0
+  | POp p _ | PSplit p _ _ _ | PReplay p _ _ _ => iter_expansion p
+  | PIterate p _ _ body _ => Z.max (ops_expansion body) (iter_expansion p)
+  | PJoin l r _ _ _ | PMerge l r => Z.max (iter_expansion l) (iter_expansion r)
+  end.
+(** elements entering an `iterate` loop times what its body makes of one element: the first
+    round's traffic on the feedback cycle *)
+Fixpoint iter_volume (p : pipe) : Z :=
+  match p with
+  | PSrc _ _ => 0
+  | POp p _ | PSplit p _ _ _ | PReplay p _ _ _ => iter_volume p
+  | PIterate p _ _ body _ => Z.max (Z.of_nat (length (denote p)) * ops_expansion body) (iter_volume p)
+  | PJoin l r _ _ _ | PMerge l r => Z.max (iter_volume l) (iter_volume r)
+  end.
+(** with ONE replica the head drains its feedback channel before every element it pulls, so
+    the cycle deadlocks only if ONE element makes more messages than the cycle holds
+    (>= capacity + 1 = 17); with several replicas a head blocked in a send stops draining
+    while the other heads keep producing, so it is enough that a round's traffic exceeds one
+    channel (16 messages) *)
+Definition f9_possible (p : pipe) (batch par : Z) : bool :=
+  let b := Z.max batch 1 in
+  if par <=? 1 then 17 <=? (iter_expansion p + b - 1) / b
+  else 16 <? (iter_volume p + b - 1) / b.
+
 Fixpoint has_iterate (p : pipe) : bool :=
   match p with
   | PSrc _ _ => false
@@ -60,7 +94,8 @@ Fixpoint cur_ops (cur : repl) (os : list op1) : repl * bool :=
         match o with
         | ORepl r => (r, repl_raises cur r)
         | OShuffle | OGroupBySum | OGroupByCount | OGroupByMax | OGroupByMin | OGroupByFoldSum
-        | OGroupByThenFoldSum | OGroupByReduceMax | ONested _ _ _ | ONestedO _ _ _ => (RpUnlimited, false)
+        | OGroupByThenFoldSum | OGroupByReduceMax | ONested _ _ _ | ONestedO _ _ _
+        | OJoinSide _ _ _ => (RpUnlimited, false)
         | OFoldSum | OFoldAssocSum | OReduceMax | OReduceAssocMax => (RpOne, false)
         | _ => (cur, false)
         end in
@@ -158,8 +193,55 @@ Example has_outer_read_ex3 : (* not inside a replay / iterate body *)
   has_outer_read (POp (PSrc true []) (ONestedO 3 10 [OAddState])) = false.
 Proof. reflexivity. Qed.
 
+(** ---- joins with a constant side input ([OJoinSide]) ---- *)
+
+(** [OJoinSide] never reads the loop state (its side input is constant), in particular not an
+    enclosing loop's; like the group-by ops it is preceded by an exchange by key, so the
+    stream has unlimited replication after it and no forward connection is raised *)
+Lemma op_reads_state_join_side v lo side : op_reads_state (OJoinSide v lo side) = false.
+Proof. reflexivity. Qed.
+Lemma op_outer_read_join_side v lo side : op_outer_read (OJoinSide v lo side) = false.
+Proof. reflexivity. Qed.
+Lemma cur_ops_join_side cur v lo side os :
+  cur_ops cur (OJoinSide v lo side :: os) = cur_ops RpUnlimited os.
+Proof. cbn [cur_ops]. destruct (cur_ops RpUnlimited os). reflexivity. Qed.
+
+(** the op is, or contains at any depth, a join with a side input *)
+Fixpoint op_join_side (o : op1) : bool :=
+  match o with
+  | OJoinSide _ _ _ => true
+  | ONested _ _ b | ONestedO _ _ b =>
+      (fix go (os : list op1) : bool :=
+         match os with [] => false | o' :: os' => op_join_side o' || go os' end) b
+  | _ => false
+  end.
+Fixpoint ops_join_side (os : list op1) : bool :=
+  match os with [] => false | o :: os' => op_join_side o || ops_join_side os' end.
+(** the pipe contains a replay / iterate loop whose body joins with a side input (coverage) *)
+Fixpoint has_loop_join_side (p : pipe) : bool :=
+  match p with
+  | PSrc _ _ => false
+  | POp p _ | PSplit p _ _ _ => has_loop_join_side p
+  | PReplay p _ _ body | PIterate p _ _ body _ => ops_join_side body || has_loop_join_side p
+  | PJoin l r _ _ _ | PMerge l r => has_loop_join_side l || has_loop_join_side r
+  end.
+
+Example cur_ops_join_side_ex :
+  cur_ops RpOne [OJoinSide JvInner LoHash [(1, 10)]; ORepl (RpLimited 2)] = (RpLimited 2, false).
+Proof. reflexivity. Qed.
+Example reads_state_join_side_ex :
+  reads_state [OJoinSide JvInner LoHash [(1, 10)]; ONestedO 2 10 [OJoinSide JvLeft LoSortMerge []]] = false.
+Proof. reflexivity. Qed.
+Example has_loop_join_side_ex :
+  has_loop_join_side (PReplay (PSrc true []) 2 10 [OAddState; ONested 2 10 [OJoinSide JvInner LoHash [(1, 10)]]]) = true.
+Proof. reflexivity. Qed.
+Example join_side_run_ok :
+  prop_ok {| c_pipe := PReplay (PSrc true [(1,5);(3,7)]) 2 1000000 [OAddState; OJoinSide JvInner LoHash [(1,10)]];
+             c_runs := [ODone [(0, 131697)]; ODoneR [(0, 131697)]] |} = true.
+Proof. vm_compute. reflexivity. Qed.
+
 Definition known_class (c : case) : N :=
-  if has_iterate (c_pipe c) && all_but (fun o => match o with OHang => true | _ => false end) c then 1%N
+  if has_iterate (c_pipe c) && all_but (fun o => match o with OHangB b par => f9_possible (c_pipe c) b par | _ => false end) c then 1%N
   else if snd (cur_repl (c_pipe c)) && all_but (fun o => match o with OPanic => true | _ => false end) c then 2%N
   else if has_outer_read (c_pipe c) && all_but (fun o => match o with ODoneR _ => true | _ => false end) c then 3%N
   else 0%N.
